@@ -338,6 +338,42 @@ theorem clone_validates_same (st : Store) (root : NodeId) (env : Go.Env) (hnd : 
     rs rs' h₁ h₂
   exact ⟨c, st', rs', h, h₂, e1, e2, e3⟩
 
+/-- `clone_resolves_iff`: for a TREE (checkStructure accepts `root`) `Resolve` of the original and `Resolve` of the clone
+    — same options, base URI, fuel; self-contained resolution — fail together or succeed together.  (For a DAG they do
+    not: the original is refused, the clone resolves; example `clone_of_dag_resolves` below.) -/
+theorem clone_resolves_iff (st : Store) (root : NodeId) (env : Go.Env) (hnd : Go.RIso.NoDocs env)
+    (hroom : st.size + Go.cloneCount st (st.size + 1) root ≤ 1000000000) (fuel : Nat) (base : String)
+    (f : Nat) (fresh : List (NodeId × Go.Info)) (hcs : Go.checkStructure st f [(root, "")] [] = .ok fresh) :
+    ∃ c st', Go.clone st root = .ok (c, st') ∧
+      (Go.resolve { env with st := st } fuel root base).isOk = (Go.resolve { env with st := st' } fuel c base).isOk := by
+  have hg : ∀ B, Go.Good B st st.size root := fun B => Go.good_of_checkStructure B st _ root fresh hcs
+  obtain ⟨c, st', h, hsz, -⟩ := clone_total (st.size + Go.cloneCount st (st.size + 1) root) st.size st root
+    (hg _) (Nat.le_succ _) (Nat.le_refl _)
+  obtain ⟨f', fresh', hcs', -⟩ := clone_is_tree st root c st' _ fresh hcs h
+  have hBn : st'.size ≤ 1000000000 := by rw [hsz]; exact hroom
+  have hext := Go.cloneFuel_ext _ h
+  have hs : st.size ≤ st'.size := hext.1
+  have hsim : Go.Sim st'.size st st' st.size root c :=
+    Go.cloneFuel_sim st'.size st _ st.size (Go.Ext.refl st) (hg _) h (Nat.le_refl _)
+  have hTS := Go.RIso.cloneS_treeSim (B := st'.size) hs (Nat.le_refl _)
+  have hn₁ : Store.get? st 1000000000 = none := Go.get?_eq_none_iff.2 (Nat.le_trans hs hBn)
+  have hn₂ : Store.get? st' 1000000000 = none := Go.get?_eq_none_iff.2 hBn
+  refine ⟨c, st', h, ?_⟩
+  cases h₁ : Go.resolve { env with st := st } fuel root base with
+  | ok rs =>
+    obtain ⟨R, rs', h₂, -⟩ := Go.RIso.resolve_trees (env₁ := { env with st := st }) (env₂ := { env with st := st' })
+      hTS rfl rfl rfl hnd hn₁ hn₂ (r₁ := root) (r₂ := c) ⟨_, hsim⟩ fuel base h₁ hcs'
+    rw [h₂]
+    rfl
+  | fuel | panic | err =>
+    cases h₂ : Go.resolve { env with st := st' } fuel c base with
+    | ok rs' =>
+      obtain ⟨R, rs, h₁', -⟩ := Go.RIso.resolve_trees (env₁ := { env with st := st' }) (env₂ := { env with st := st })
+        hTS.flip rfl rfl rfl hnd hn₂ hn₁ (r₁ := c) (r₂ := root) ⟨_, hsim⟩ fuel base h₂ hcs
+      rw [h₁] at h₁'
+      cases h₁'
+    | fuel | panic | err => rfl
+
 /-- the 23 fields cloneStep rewrites are exactly the Schema-typed fields of the Go struct: every field
     whose Go type mentions `Schema` has type `*Schema`, `[]*Schema` or `map[string]*Schema`; there are 23
     of them, as many as `Node.childFields` (13 + 5 + 5 by kind); and the JSON names agree -/
